@@ -7,5 +7,5 @@ CONSTANTS
   MaxCrashes = 99
   CrashPlans <- AnyTime
   Emit = FALSE
-INVARIANTS ObsWellFormed AssignedOnce AtMostOnce FileOrBackupComplete CrashLosesOnlyInFlight ObsResultsNotOverwritten NoLostJob RestartExact ObsMutexInSync ObsNoAbort
+INVARIANTS ObsWellFormed AssignedOnce AtMostOnce AtMostOncePerRun FileOrBackupComplete CrashLosesOnlyInFlight ObsResultsNotOverwritten NoLostJob RestartExact ObsMutexInSync ObsNoAbort
 CHECK_DEADLOCK FALSE
